@@ -122,6 +122,68 @@ func c09sched(c *core.Ctx) {
 			}})
 		}
 	}
+	// a connection with a will is cut and its successor (same client id) connects at once,
+	// with another will or none: the will of the connection that ended is published, once
+	for _, v := range []struct {
+		name               string
+		oldClean, newClean bool
+		newWill            *Will
+	}{
+		{"persistent, successor persistent with another will", false, false, &Will{"w/x", "second", 0, false}},
+		{"persistent, successor persistent without will", false, false, nil},
+		{"clean, successor clean with another will", true, true, &Will{"w/x", "second", 0, false}},
+		{"persistent, successor clean without will", false, true, nil},
+	} {
+		v := v
+		scs = append(scs, scen{"cut, successor connects at once (" + v.name + ")", func() {
+			t := newTD()
+			w := t.connect("W", 0, 65535, false)
+			t.subscribe("W", "#", 2)
+			x1, err := t.w.Dial("X1")
+			if err != nil {
+				vsched.Failf("harness: dial: %v", err)
+				return
+			}
+			x1.Send(ConnectPacket(ConnectOpts{ClientID: "x", Clean: v.oldClean, KeepAlive: 65535, Will: &Will{"w/x", "first", 0, false}}))
+			t.w.Settle()
+			x1.Take()
+			w.rc.Take()
+			x2, err := t.w.Dial("X2")
+			if err != nil {
+				vsched.Failf("harness: dial: %v", err)
+				return
+			}
+			if vsched.Failed() {
+				return
+			}
+			vsched.Mark()
+			x1.Cut()
+			x2.Conn.Write(append(refcodec.Encode(ConnectPacket(ConnectOpts{ClientID: "x", Clean: v.newClean, KeepAlive: 65535, Will: v.newWill})), refcodec.Encode(&refcodec.Packet{Type: refcodec.PINGREQ})...))
+			t.w.Settle()
+			if got := x2.Take(); !hasType(got, refcodec.CONNACK) || !hasType(got, refcodec.PINGRESP) {
+				vsched.Failf("CONNECT + PINGREQ of the successor answered by %s", Describe(got))
+				return
+			}
+			ws := publishesOn(w.rc.Take(), "w/x")
+			if len(ws) != 1 || string(ws[0].Payload) != "first" {
+				vsched.Failf("the first connection (will \"first\") was cut, its successor is still connected; wills published: %s", Describe(ws))
+				return
+			}
+			// the successor ends abnormally as well
+			x2.Cut()
+			t.w.Settle()
+			ws = publishesOn(w.rc.Take(), "w/x")
+			want := 0
+			if v.newWill != nil {
+				want = 1
+			}
+			if len(ws) != want || (want == 1 && string(ws[0].Payload) != "second") {
+				vsched.Failf("the successor (will: %v) was cut; wills published: %s", v.newWill != nil, Describe(ws))
+				return
+			}
+			vsched.Logf("ok")
+		}})
+	}
 	for _, sc := range scs {
 		if c.Expired() || c.HasViolation() {
 			return
